@@ -91,15 +91,53 @@ def ec_add(A, B):
     return (x3, (lam * (x1 - x3) - y1) % P_FIELD)
 
 
+def _jdbl(P):
+    X, Y, Z = P
+    if Y == 0:
+        return (0, 1, 0)
+    S = 4 * X * Y * Y % P_FIELD
+    M = 3 * X * X % P_FIELD
+    X2 = (M * M - 2 * S) % P_FIELD
+    Y2 = (M * (S - X2) - 8 * pow(Y, 4, P_FIELD)) % P_FIELD
+    return (X2, Y2, 2 * Y * Z % P_FIELD)
+
+
+def _jadd(P, Q):
+    if P[2] == 0:
+        return Q
+    if Q[2] == 0:
+        return P
+    X1, Y1, Z1 = P
+    X2, Y2, Z2 = Q
+    U1 = X1 * Z2 * Z2 % P_FIELD
+    U2 = X2 * Z1 * Z1 % P_FIELD
+    S1 = Y1 * pow(Z2, 3, P_FIELD) % P_FIELD
+    S2 = Y2 * pow(Z1, 3, P_FIELD) % P_FIELD
+    if U1 == U2:
+        return _jdbl(P) if S1 == S2 else (0, 1, 0)
+    H = (U2 - U1) % P_FIELD
+    R = (S2 - S1) % P_FIELD
+    X3 = (R * R - H ** 3 - 2 * U1 * H * H) % P_FIELD
+    Y3 = (R * (U1 * H * H - X3) - S1 * H ** 3) % P_FIELD
+    return (X3, Y3, H * Z1 * Z2 % P_FIELD)
+
+
 def ec_mul(k, A=(GX, GY)):
+    """k*A in affine coordinates (None = infinity); own double-and-add in Jacobian coordinates"""
     k %= N_ORDER
-    R = None
+    if A is None:
+        return None
+    R = (0, 1, 0)
+    B = (A[0], A[1], 1)
     while k:
         if k & 1:
-            R = ec_add(R, A)
-        A = ec_add(A, A)
+            R = _jadd(R, B)
+        B = _jdbl(B)
         k >>= 1
-    return R
+    if R[2] == 0:
+        return None
+    zi = pow(R[2], -1, P_FIELD)
+    return (R[0] * zi * zi % P_FIELD, R[1] * zi * zi * zi % P_FIELD)
 
 
 def enc_sec(pair):
@@ -844,3 +882,575 @@ def impl_chain(sym, seed, cut, path):
             break
         out.append(canon(ser(k)))
     return "[" + " ".join(out) + "]"
+
+
+# =====================================================================================================================
+# direct checks of the property on the implementation
+# =====================================================================================================================
+VECTORS = [
+    ("000102030405060708090a0b0c0d0e0f", [2147483648, 1, 2147483650, 2, 1000000000], [
+        ("xprv9s21ZrQH143K3QTDL4LXw2F7HEK3wJUD2nW2nRk4stbPy6cq3jPPqjiChkVvvNKmPGJxWUtg6LnF5kejMRNNU3TGtRBeJgk33yuGBxrMPHi",
+         "xpub661MyMwAqRbcFtXgS5sYJABqqG9YLmC4Q1Rdap9gSE8NqtwybGhePY2gZ29ESFjqJoCu1Rupje8YtGqsefD265TMg7usUDFdp6W1EGMcet8"),
+        ("xprv9uHRZZhk6KAJC1avXpDAp4MDc3sQKNxDiPvvkX8Br5ngLNv1TxvUxt4cV1rGL5hj6KCesnDYUhd7oWgT11eZG7XnxHrnYeSvkzY7d2bhkJ7",
+         "xpub68Gmy5EdvgibQVfPdqkBBCHxA5htiqg55crXYuXoQRKfDBFA1WEjWgP6LHhwBZeNK1VTsfTFUHCdrfp1bgwQ9xv5ski8PX9rL2dZXvgGDnw"),
+        ("xprv9wTYmMFdV23N2TdNG573QoEsfRrWKQgWeibmLntzniatZvR9BmLnvSxqu53Kw1UmYPxLgboyZQaXwTCg8MSY3H2EU4pWcQDnRnrVA1xe8fs",
+         "xpub6ASuArnXKPbfEwhqN6e3mwBcDTgzisQN1wXN9BJcM47sSikHjJf3UFHKkNAWbWMiGj7Wf5uMash7SyYq527Hqck2AxYysAA7xmALppuCkwQ"),
+        ("xprv9z4pot5VBttmtdRTWfWQmoH1taj2axGVzFqSb8C9xaxKymcFzXBDptWmT7FwuEzG3ryjH4ktypQSAewRiNMjANTtpgP4mLTj34bhnZX7UiM",
+         "xpub6D4BDPcP2GT577Vvch3R8wDkScZWzQzMMUm3PWbmWvVJrZwQY4VUNgqFJPMM3No2dFDFGTsxxpG5uJh7n7epu4trkrX7x7DogT5Uv6fcLW5"),
+        ("xprvA2JDeKCSNNZky6uBCviVfJSKyQ1mDYahRjijr5idH2WwLsEd4Hsb2Tyh8RfQMuPh7f7RtyzTtdrbdqqsunu5Mm3wDvUAKRHSC34sJ7in334",
+         "xpub6FHa3pjLCk84BayeJxFW2SP4XRrFd1JYnxeLeU8EqN3vDfZmbqBqaGJAyiLjTAwm6ZLRQUMv1ZACTj37sR62cfN7fe5JnJ7dh8zL4fiyLHV"),
+        ("xprvA41z7zogVVwxVSgdKUHDy1SKmdb533PjDz7J6N6mV6uS3ze1ai8FHa8kmHScGpWmj4WggLyQjgPie1rFSruoUihUZREPSL39UNdE3BBDu76",
+         "xpub6H1LXWLaKsWFhvm6RVpEL9P4KfRZSW7abD2ttkWP3SSQvnyA8FSVqNTEcYFgJS2UaFcxupHiYkro49S8yGasTvXEYBVPamhGW6cFJodrTHy")]),
+    ("fffcf9f6f3f0edeae7e4e1dedbd8d5d2cfccc9c6c3c0bdbab7b4b1aeaba8a5a29f9c999693908d8a8784817e7b7875726f6c696663605d5a5754514e4b484542",
+     [0, 4294967295, 1, 4294967294, 2], [
+        ("xprv9s21ZrQH143K31xYSDQpPDxsXRTUcvj2iNHm5NUtrGiGG5e2DtALGdso3pGz6ssrdK4PFmM8NSpSBHNqPqm55Qn3LqFtT2emdEXVYsCzC2U",
+         "xpub661MyMwAqRbcFW31YEwpkMuc5THy2PSt5bDMsktWQcFF8syAmRUapSCGu8ED9W6oDMSgv6Zz8idoc4a6mr8BDzTJY47LJhkJ8UB7WEGuduB"),
+        ("xprv9vHkqa6EV4sPZHYqZznhT2NPtPCjKuDKGY38FBWLvgaDx45zo9WQRUT3dKYnjwih2yJD9mkrocEZXo1ex8G81dwSM1fwqWpWkeS3v86pgKt",
+         "xpub69H7F5d8KSRgmmdJg2KhpAK8SR3DjMwAdkxj3ZuxV27CprR9LgpeyGmXUbC6wb7ERfvrnKZjXoUmmDznezpbZb7ap6r1D3tgFxHmwMkQTPH"),
+        ("xprv9wSp6B7kry3Vj9m1zSnLvN3xH8RdsPP1Mh7fAaR7aRLcQMKTR2vidYEeEg2mUCTAwCd6vnxVrcjfy2kRgVsFawNzmjuHc2YmYRmagcEPdU9",
+         "xpub6ASAVgeehLbnwdqV6UKMHVzgqAG8Gr6riv3Fxxpj8ksbH9ebxaEyBLZ85ySDhKiLDBrQSARLq1uNRts8RuJiHjaDMBU4Zn9h8LZNnBC5y4a"),
+        ("xprv9zFnWC6h2cLgpmSA46vutJzBcfJ8yaJGg8cX1e5StJh45BBciYTRXSd25UEPVuesF9yog62tGAQtHjXajPPdbRCHuWS6T8XA2ECKADdw4Ef",
+         "xpub6DF8uhdarytz3FWdA8TvFSvvAh8dP3283MY7p2V4SeE2wyWmG5mg5EwVvmdMVCQcoNJxGoWaU9DCWh89LojfZ537wTfunKau47EL2dhHKon"),
+        ("xprvA1RpRA33e1JQ7ifknakTFpgNXPmW2YvmhqLQYMmrj4xJXXWYpDPS3xz7iAxn8L39njGVyuoseXzU6rcxFLJ8HFsTjSyQbLYnMpCqE2VbFWc",
+         "xpub6ERApfZwUNrhLCkDtcHTcxd75RbzS1ed54G1LkBUHQVHQKqhMkhgbmJbZRkrgZw4koxb5JaHWkY4ALHY2grBGRjaDMzQLcgJvLJuZZvRcEL"),
+        ("xprvA2nrNbFZABcdryreWet9Ea4LvTJcGsqrMzxHx98MMrotbir7yrKCEXw7nadnHM8Dq38EGfSh6dqA9QWTyefMLEcBYJUuekgW4BYPJcr9E7j",
+         "xpub6FnCn6nSzZAw5Tw7cgR9bi15UV96gLZhjDstkXXxvCLsUXBGXPdSnLFbdpq8p9HmGsApME5hQTZ3emM2rnY5agb9rXpVGyy3bdW6EEgAtqt")]),
+]
+BTC_XPRV, BTC_XPUB = bytes.fromhex("0488ade4"), bytes.fromhex("0488b21e")
+
+
+def row_of(sym, kt):
+    for r in ROWS:
+        if r[0] == sym and r[1] == kt:
+            return r
+    raise KeyError((sym, kt))
+
+
+def chk_vector_impl(vi):
+    seed, path, exp = VECTORS[vi]
+    k = BTC.keys.bip32_seed(bytes.fromhex(seed))
+    for j in range(len(path) + 1):
+        if j:
+            i = path[j - 1]
+            k = k.subkey(i & 0x7FFFFFFF, is_hardened=bool(i >> 31))
+        got = (k.hwif(as_private=True), k.hwif())
+        if got != exp[j]:
+            return {"kind": "bip32-vector", "vector": vi + 1, "step": j, "got": got, "want": exp[j]}
+        # and from the public side wherever the step is not hardened
+    return None
+
+
+_DRV = None
+
+
+def drv_run(lines):
+    global _DRV
+    if _DRV is None:
+        _DRV = Driver(DRIVER, ORACLES, True)
+    return _DRV.run(lines)
+
+
+def chk_vector_spec(vi):
+    """the extracted BIP text (Spec/Bip32Spec.v) reproduces the published vector: validates the SPEC"""
+    seed, path, exp = VECTORS[vi]
+    line = "spec_derive %s %s %s %s %s" % (arg(BTC_XPRV), arg(BTC_XPUB), arg(bytes.fromhex(seed)), arg(len(path)), arg(path))
+    got = drv_run([line])[0]
+    want = "[" + " ".join(canon((b58check_dec(0, a), b58check_dec(0, b))) for a, b in exp) + "]"
+    if got != want:
+        return {"kind": "spec-vs-bip32-vector", "vector": vi + 1, "got": got[:300], "want": want[:300]}
+    return None
+
+
+# ---- an independent BIP32 (own curve arithmetic, own serialization) ----
+def ref_master(seed):
+    I = _hmac.new(b"Bitcoin seed", seed, hashlib.sha512).digest()
+    k = int.from_bytes(I[:32], "big")
+    if k == 0 or k >= N_ORDER:
+        return None
+    return {"k": k, "K": ec_mul(k), "c": I[32:], "depth": 0, "fpr": b"\0\0\0\0", "idx": 0}
+
+
+def ref_child(x, i):
+    fpr = h160(enc_sec(x["K"]))[:4]
+    if x["k"] is not None:
+        data = (b"\0" + x["k"].to_bytes(32, "big") if i >= 2 ** 31 else enc_sec(x["K"])) + i.to_bytes(4, "big")
+        I = _hmac.new(x["c"], data, hashlib.sha512).digest()
+        il = int.from_bytes(I[:32], "big")
+        k = (il + x["k"]) % N_ORDER
+        if il >= N_ORDER or k == 0:
+            return None
+        return {"k": k, "K": ec_mul(k), "c": I[32:], "depth": x["depth"] + 1, "fpr": fpr, "idx": i}
+    if i >= 2 ** 31:
+        return "refused"
+    I = _hmac.new(x["c"], enc_sec(x["K"]) + i.to_bytes(4, "big"), hashlib.sha512).digest()
+    il = int.from_bytes(I[:32], "big")
+    K = ec_add(ec_mul(il), x["K"])
+    if il >= N_ORDER or K is None:
+        return None
+    return {"k": None, "K": K, "c": I[32:], "depth": x["depth"] + 1, "fpr": fpr, "idx": i}
+
+
+def ref_neuter(x):
+    y = dict(x)
+    y["k"] = None
+    return y
+
+
+def ref_ser(prefix, x, as_private):
+    key = b"\0" + x["k"].to_bytes(32, "big") if as_private else enc_sec(x["K"])
+    return prefix + bytes([x["depth"]]) + x["fpr"] + x["idx"].to_bytes(4, "big") + x["c"] + key
+
+
+def ref_tuple(x):
+    return (x["c"], x["depth"], x["fpr"], x["idx"], x["k"], enc_sec(x["K"]))
+
+
+def chk_ref(sym, kt, seed, path, cut):
+    """implementation = independent BIP32 at every step of a path: fields, and the text form on the given network"""
+    row = row_of(sym, kt)
+    cls = node_class(sym, kt)
+    x = ref_master(seed)
+    if x is None:
+        return None
+    k = cls.from_master_secret(seed)
+    for j in range(len(path) + 1):
+        if j:
+            i = path[j - 1]
+            if j - 1 == cut:
+                k = k.public_copy()
+                x = ref_neuter(x)
+            y = ref_child(x, i)
+            try:
+                k = k.subkey(i & 0x7FFFFFFF, is_hardened=bool(i >> 31))
+            except PublicPrivateMismatchError:
+                if y == "refused":
+                    return None
+                return {"kind": "refused-unexpectedly", "step": j}
+            if y == "refused":
+                return {"kind": "hardened-derived-from-public", "step": j, "index": i}
+            if y is None:
+                return None             # outside I_L < n / child <> 0: not reachable with a real HMAC
+            x = y
+        if nd_tuple(k) != ref_tuple(x):
+            return {"kind": "child-differs-from-bip32", "step": j, "impl": canon(nd_tuple(k)), "bip32": canon(ref_tuple(x))}
+        for ap in ([True, False] if x["k"] is not None else [False]):
+            pfx = row[2] if ap else row[3]
+            if pfx is None:
+                continue
+            want = b58check_enc(row[6], ref_ser(pfx, x, ap))
+            got = k.hwif(as_private=ap)
+            if got != want:
+                return {"kind": "text-differs-from-bip32", "step": j, "as_private": ap, "impl": got, "bip32": want}
+    return None
+
+
+def pub_view(t):
+    return (t[0], t[1], t[2], t[3], None, t[5])
+
+
+def chk_commute(sym, kt, seed, p1, p2):
+    """public_copy(derive(m, p1/p2)) = derive(public_copy(derive(m, p1)), p2) for non-hardened p2"""
+    cls = node_class(sym, kt)
+    m = cls.from_master_secret(seed)
+    a = m.subkey_for_path(p1) if p1 else m
+    full = a.subkey_for_path(p2) if p2 else a
+    pa = a.public_copy()
+    b = pa.subkey_for_path(p2) if p2 else pa
+    if pub_view(nd_tuple(full)) != nd_tuple(b) or full.public_copy().hwif() != b.hwif() or full.hwif() != b.hwif():
+        return {"kind": "public-private-do-not-commute", "p1": p1, "p2": p2, "private": canon(nd_tuple(full)), "public": canon(nd_tuple(b))}
+    if b.secret_exponent() is not None or full.public_copy().secret_exponent() is not None:
+        return {"kind": "public-node-has-secret"}
+    # .pub spelling
+    c = m.subkey_for_path((p1 + "/" if p1 and p2 else p1) + p2 + ".pub") if (p1 or p2) else m.subkey_for_path(".pub")
+    if nd_tuple(c) != nd_tuple(b):
+        return {"kind": "dot-pub-differs", "p1": p1, "p2": p2}
+    return None
+
+
+def chk_hardened_refused(sym, kt, seed, p1, i):
+    cls = node_class(sym, kt)
+    pa = cls.from_master_secret(seed).subkey_for_path(p1 + ".pub")
+    for f in (lambda: pa.subkey(i, is_hardened=True), lambda: pa.subkey(i, is_hardened=True, as_private=True),
+              lambda: pa.subkey_for_path("%dH" % i), lambda: pa.subkey_for_path("0/%d'" % i), lambda: pa.subkey_for_path("%dp.pub" % i)):
+        try:
+            r = f()
+        except PublicPrivateMismatchError:
+            continue
+        except Exception as e:
+            return {"kind": "hardened-on-public-wrong-exception", "detail": "%s: %s" % (type(e).__name__, e)}
+        return {"kind": "hardened-derived-from-public", "got": canon(nd_tuple(r))}
+    return None
+
+
+def chk_metadata(seed, p1, i, h, pub):
+    m = BTC.keys.bip32_seed(seed)
+    parent = m.subkey_for_path(p1) if p1 else m
+    if pub:
+        parent = parent.public_copy()
+        h = False
+    child = parent.subkey(i, is_hardened=h)
+    num = i | (0x80000000 if h else 0)
+    fpr = h160(parent.sec())[:4]
+    if child.tree_depth() != parent.tree_depth() + 1 or child.parent_fingerprint() != fpr or child.child_index() != num:
+        return {"kind": "child-metadata", "depth": child.tree_depth(), "fpr": child.parent_fingerprint().hex(), "want_fpr": fpr.hex(),
+                "index": child.child_index(), "want_index": num}
+    data = (b"\0" + parent.secret_exponent().to_bytes(32, "big") if h else parent.sec()) + num.to_bytes(4, "big")
+    I = _hmac.new(parent.chain_code(), data, hashlib.sha512).digest()
+    if child.chain_code() != I[32:]:
+        return {"kind": "hmac-input-not-big-endian-index", "index": num}
+    ser = child.serialize(as_private=False)
+    if len(ser) != 74 or ser[0] != child.tree_depth() % 256 or ser[1:5] != fpr or ser[5:9] != num.to_bytes(4, "big") or ser[9:41] != I[32:]:
+        return {"kind": "serialization-layout", "ser": ser.hex()}
+    return None
+
+
+def chk_text_roundtrip(sym, kt, seed, path, ap):
+    row = row_of(sym, kt)
+    net = NETS[sym]
+    cls = node_class(sym, kt)
+    k = cls.from_master_secret(seed)
+    if path:
+        k = k.subkey_for_path(path)
+    if not ap and len(seed) % 2:
+        k = k.public_copy()
+    try:
+        text = k.hwif(as_private=ap)
+    except ImportError as e:
+        return {"kind": "skipped-no-groestl", "detail": str(e)}
+    want = nd_tuple(k) if ap else pub_view(nd_tuple(k))
+    mismatch = row[6] != row[7]
+    for which in ("bip%d" % kt, "bip%d_%s" % (kt, "prv" if ap else "pub")):
+        back = getattr(net.parse, which)(text)
+        if back is None:
+            return {"kind": "text-does-not-parse-back", "network": sym, "key_type": kt, "parser": which, "text": text,
+                    "codec_mismatch": mismatch}
+        if nd_tuple(back) != want or type(back) is not cls:
+            return {"kind": "text-roundtrip-changes-fields", "network": sym, "key_type": kt, "parser": which, "text": text,
+                    "got": canon(nd_tuple(back)), "want": canon(want), "class": type(back).__name__}
+        if back.hwif(as_private=ap) != text:
+            return {"kind": "text-roundtrip-reprint-differs", "network": sym, "key_type": kt}
+    other = getattr(net.parse, "bip%d_%s" % (kt, "pub" if ap else "prv"))(text)
+    if other is not None:
+        return {"kind": "private-public-kinds-confused", "network": sym, "key_type": kt, "text": text}
+    for kt2 in (32, 49, 84):
+        if kt2 != kt:
+            o = getattr(net.parse, "bip%d" % kt2)(text)
+            rows2 = [r for r in ROWS if r[0] == sym and r[1] == kt2]
+            if o is not None and rows2 and rows2[0][4:6] != row[4:6]:
+                return {"kind": "key-types-confused", "network": sym, "printed_as": kt, "parsed_as": kt2}
+    return None
+
+
+def chk_cache(seed, pub, calls):
+    """repeated derivations in any order on one node: each equals the uncached _subkey on a fresh copy; repeats are the same object"""
+    m = BTC.keys.bip32_seed(seed)
+    if pub:
+        m = m.public_copy()
+    seen = {}
+    for (i, h, ap) in calls:
+        fresh = type(m).deserialize(b"\0\0\0\0" + m.serialize())
+        try:
+            want = canon(nd_tuple(fresh._subkey(i, h, (fresh.secret_exponent() is not None) if ap is None else ap)))
+        except Exception as e:
+            want = "!" + tag9(e)
+        try:
+            r = m.subkey(i, h, ap)
+            got = canon(nd_tuple(r))
+        except Exception as e:
+            r = None
+            got = "!" + tag9(e)
+        if got != want:
+            return {"kind": "cached-differs-from-uncached", "call": [i, h, ap], "got": got, "want": want}
+        key = (i, bool(h), (m.secret_exponent() is not None) if ap is None else bool(ap))
+        if r is not None:
+            if key in seen and seen[key] is not r:
+                return {"kind": "cache-returns-different-object", "call": [i, h, ap]}
+            seen[key] = r
+    return None
+
+
+def chk_spellings(seed, toks, pub):
+    """toks: list of (index, hardened): the three spellings give the same node; a range path expands to the product"""
+    m = BTC.keys.bip32_seed(seed)
+    base = None
+    for ch in HCH:
+        path = "/".join("%d%s" % (i, ch if h else "") for i, h in toks)
+        k = m.subkey_for_path(path + (".pub" if pub else ""))
+        t = nd_tuple(k)
+        if base is None:
+            base = t
+        elif t != base:
+            return {"kind": "spelling-changes-result", "path": path}
+    mixed = "/".join("%d%s" % (i, HCH[(j + i) % 3] if h else "") for j, (i, h) in enumerate(toks))
+    if nd_tuple(m.subkey_for_path(mixed + (".pub" if pub else ""))) != base:
+        return {"kind": "spelling-changes-result", "path": mixed}
+    # step by step
+    k = m
+    for i, h in toks:
+        k = k.subkey(i, is_hardened=h)
+    if (pub_view(nd_tuple(k)) if pub else nd_tuple(k)) != base:
+        return {"kind": "path-differs-from-steps", "path": mixed}
+    return None
+
+
+def chk_range(seed, comps):
+    """comps: list of components, each a list of (lo, hi, hardened-char or '') ; subkeys(range) = product, in order"""
+    m = BTC.keys.bip32_seed(seed)
+    text = "/".join(",".join(("%d" % lo if lo == hi and (lo + len(c)) % 2 else "%d-%d" % (lo, hi)) + hc for lo, hi, hc in c) for c in comps)
+    exp_comps = []
+    for c in comps:
+        items = []
+        for lo, hi, hc in c:
+            items += [(t, bool(hc)) for t in range(lo, hi + 1)]
+        exp_comps.append(items)
+    want_paths = list(itertools.product(*exp_comps))
+    got_paths = list(subpaths_for_path_range(text))
+    if len(got_paths) != len(want_paths):
+        return {"kind": "range-count", "range": text, "got": len(got_paths), "want": len(want_paths)}
+    keys = list(m.subkeys(text))
+    for gp, wp, k in zip(got_paths, want_paths, keys):
+        if gp != "/".join("%d%s" % (t, "H" if h else "") for t, h in wp):
+            return {"kind": "range-element", "range": text, "got": gp}
+        ref = m
+        for t, h in wp:
+            ref = ref.subkey(t, is_hardened=h)
+        if nd_tuple(ref) != nd_tuple(k):
+            return {"kind": "range-key-differs", "range": text, "path": gp}
+    return None
+
+
+def chk_electrum(k, path):
+    E = BTC.keys
+    prv = E.electrum_private(master_private_key=k)
+    pub = prv.public_copy()
+    if pub.secret_exponent() is not None or pub.master_public_key() != prv.master_public_key():
+        return {"kind": "electrum-public-copy"}
+    try:
+        a = prv.subkey(path)
+    except Exception as e1:
+        try:
+            pub.subkey(path)
+        except Exception:
+            return None
+        return {"kind": "electrum-private-raises-public-does-not", "detail": str(e1)}
+    b = pub.subkey(path)
+    if a.master_public_key() != b.master_public_key() or b.secret_exponent() is not None or a.address() != b.address() \
+            or a.public_copy().master_public_key() != b.master_public_key():
+        return {"kind": "electrum-public-private-do-not-commute", "path": path}
+    # independent: child = (k + dsha(n:fc:mpk)) mod n
+    t = path.split("/")
+    n, fc = (t[0], t[1]) if len(t) == 2 else (t[0], "0")
+    mpk = ec_mul(k)
+    mpkb = mpk[0].to_bytes(32, "big") + mpk[1].to_bytes(32, "big")
+    off = int.from_bytes(hashlib.sha256(hashlib.sha256(("%s:%s:" % (n, fc)).encode() + mpkb).digest()).digest(), "big")
+    ck = (k + off) % N_ORDER
+    if a.secret_exponent() != ck:
+        return {"kind": "electrum-child-key", "path": path}
+    cp = ec_mul(ck)
+    if b.master_public_key() != cp[0].to_bytes(32, "big") + cp[1].to_bytes(32, "big"):
+        return {"kind": "electrum-child-point", "path": path}
+    return None
+
+
+def chk_blob_roundtrip(x, odd, depth, idx):
+    """a public key of unknown discrete logarithm: deserialize o serialize is the identity on the 78 bytes"""
+    cand = bytes([3 if odd else 2]) + x.to_bytes(32, "big")
+    if sec_status(cand) != "ok":
+        return None
+    blob = BTC_XPUB + ser_fields(depth, b"\x01\x02\x03\x04", idx, bytes(range(32)), cand)
+    nd = node_class("BTC", 32).deserialize(blob)
+    if nd.serialize() != blob[4:] or nd.tree_depth() != depth or nd.child_index() != idx:
+        return {"kind": "blob-roundtrip", "blob": blob.hex()}
+    t = BTC.parse.bip32(b58check_enc(0, blob))
+    if t is None or t.hwif() != b58check_enc(0, blob):
+        return {"kind": "text-blob-roundtrip", "blob": blob.hex()}
+    return None
+
+
+def chk_sec_oracle(k):
+    """the SEC oracle of the correspondence run (pycoin's generator) against the independent arithmetic of this file"""
+    if _o_sec(k.to_bytes(32, "big")) != enc_sec(ec_mul(k)):
+        return {"kind": "sec-oracle-differs-from-independent-arithmetic", "k": k}
+    return None
+
+
+def _nh_path(rng, maxd=4):
+    return "/".join(str(rng.choice(IDX) if rng.random() < 0.6 else rng.getrandbits(31)) for _ in range(rng.randint(0, maxd)))
+
+
+def _any_path(rng, maxd=4):
+    return "/".join(str(rng.choice(IDX) if rng.random() < 0.6 else rng.getrandbits(31)) + (rng.choice(HCH) if rng.random() < 0.4 else "")
+                    for _ in range(rng.randint(0, maxd)))
+
+
+def _seed(rng):
+    return bytes(rng.getrandbits(8) for _ in range(rng.choice([16, 32, 64])))
+
+
+def prop_cases(rng, tier):
+    Q = tier == "quick"
+    for vi in range(len(VECTORS)):
+        yield PropCase("vector_impl", {"vector": vi}, (lambda vi=vi: chk_vector_impl(vi)))
+        yield PropCase("vector_spec", {"vector": vi}, (lambda vi=vi: chk_vector_spec(vi)))
+    for _ in range(60 if Q else 1500):
+        yield (lambda k: PropCase("sec_oracle", {"k": k}, (lambda: chk_sec_oracle(k))))(rnd_secret(rng) % N_ORDER or 1)
+    real = [("BTC", 32), ("XTN", 32), ("LTC", 32), ("BTC", 49), ("BTC", 84), ("XTN", 49), ("XTN", 84), ("LTC", 49), ("LTC", 84)]
+    for n in range(70 if Q else 2500):
+        sym, kt = real[n % len(real)]
+        seed = _seed(rng)
+        depth = rng.randint(0, 8 if n % 7 == 0 else 4)
+        path = [((rng.choice(IDX) if rng.random() < 0.6 else rng.getrandbits(31)) % 2 ** 31) | (0x80000000 if rng.random() < 0.4 else 0)
+                for _ in range(depth)]
+        cut = rng.randint(0, depth) if rng.random() < 0.6 else depth
+        path = [i if j < cut or rng.random() < 0.05 else i & 0x7FFFFFFF for j, i in enumerate(path)]
+        inp = {"net": sym, "kt": kt, "seed": seed.hex(), "path": path, "cut": cut}
+        yield PropCase("ref", inp, (lambda sym=sym, kt=kt, seed=seed, path=path, cut=cut: chk_ref(sym, kt, seed, path, cut)))
+    for n in range(150 if Q else 4000):
+        sym, kt = real[n % len(real)]
+        seed, p1, p2 = _seed(rng), _any_path(rng, 3), _nh_path(rng, 5)
+        inp = {"net": sym, "kt": kt, "seed": seed.hex(), "p1": p1, "p2": p2}
+        yield PropCase("commute", inp, (lambda sym=sym, kt=kt, seed=seed, p1=p1, p2=p2: chk_commute(sym, kt, seed, p1, p2)))
+    for n in range(40 if Q else 800):
+        sym, kt = real[n % len(real)]
+        seed, p1, i = _seed(rng), _any_path(rng, 2), rng.choice(IDX) if rng.random() < 0.7 else rng.getrandbits(31)
+        inp = {"net": sym, "kt": kt, "seed": seed.hex(), "p1": p1, "i": i}
+        yield PropCase("hardened_refused", inp, (lambda sym=sym, kt=kt, seed=seed, p1=p1, i=i: chk_hardened_refused(sym, kt, seed, p1, i)))
+    for n in range(200 if Q else 5000):
+        seed, p1 = _seed(rng), _any_path(rng, 3)
+        i = rng.choice(IDX) if rng.random() < 0.7 else rng.getrandbits(31)
+        h, pub = rng.random() < 0.5, rng.random() < 0.4
+        inp = {"seed": seed.hex(), "p1": p1, "i": i, "h": h, "pub": pub}
+        yield PropCase("metadata", inp, (lambda seed=seed, p1=p1, i=i, h=h, pub=pub: chk_metadata(seed, p1, i, h, pub)))
+    # text round trip: every table row (all networks x key types), private and public
+    for row in ROWS:
+        for n in range(2 if Q else 12):
+            seed, path, ap = _seed(rng), _any_path(rng, 3), n % 2 == 0
+            inp = {"net": row[0], "kt": row[1], "seed": seed.hex(), "path": path, "ap": ap}
+            yield PropCase("text_roundtrip", inp, (lambda row=row, seed=seed, path=path, ap=ap: chk_text_roundtrip(row[0], row[1], seed, path, ap)))
+    for n in range(120 if Q else 3000):
+        seed, pub = _seed(rng), rng.random() < 0.4
+        pool = [(rnd_index(rng), rng.random() < 0.4, rng.choice([None, True, False])) for _ in range(rng.randint(1, 6))]
+        calls = [rng.choice(pool) for _ in range(rng.randint(1, 14))]
+        inp = {"seed": seed.hex(), "pub": pub, "calls": [list(c) for c in calls]}
+        yield PropCase("cache", inp, (lambda seed=seed, pub=pub, calls=calls: chk_cache(seed, pub, calls)))
+    for n in range(80 if Q else 2000):
+        seed = _seed(rng)
+        toks = [(rng.choice(IDX) if rng.random() < 0.6 else rng.getrandbits(31), rng.random() < 0.5) for _ in range(rng.randint(1, 6))]
+        pub = rng.random() < 0.3
+        inp = {"seed": seed.hex(), "toks": [list(t) for t in toks], "pub": pub}
+        yield PropCase("spellings", inp, (lambda seed=seed, toks=toks, pub=pub: chk_spellings(seed, toks, pub)))
+    for n in range(40 if Q else 800):
+        seed = _seed(rng)
+        comps = []
+        for _ in range(rng.randint(1, 3)):
+            c = []
+            for _ in range(rng.choice([1, 1, 2])):
+                lo = rng.choice([0, 1, 7, 2 ** 31 - 3, rng.getrandbits(12)])
+                c.append((lo, lo + rng.choice([0, 1, 2]), rng.choice(["", "", "H", "p", "'"])))
+            comps.append(c)
+        inp = {"seed": seed.hex(), "comps": [[list(x) for x in c] for c in comps]}
+        yield PropCase("range", inp, (lambda seed=seed, comps=comps: chk_range(seed, comps)))
+    for n in range(80 if Q else 2000):
+        k = rnd_secret(rng) % N_ORDER or 1
+        path = rng.choice(["0", "1", "0/1", "5/0", "17/1"]) if rng.random() < 0.5 else "%d/%d" % (rng.getrandbits(20), rng.getrandbits(1))
+        yield PropCase("electrum", {"k": k, "path": path}, (lambda k=k, path=path: chk_electrum(k, path)))
+    n_blob = 0
+    while n_blob < (40 if Q else 800):
+        x = rng.getrandbits(256) % P_FIELD
+        if sec_status(b"\x02" + x.to_bytes(32, "big")) != "ok":
+            continue
+        n_blob += 1
+        odd, depth, idx = rng.random() < 0.5, rng.choice([0, 1, 255]), rng.choice([0, 2 ** 31, 2 ** 32 - 1, rng.getrandbits(32)])
+        yield PropCase("blob_roundtrip", {"x": x, "odd": odd, "depth": depth, "idx": idx},
+                       (lambda x=x, odd=odd, depth=depth, idx=idx: chk_blob_roundtrip(x, odd, depth, idx)))
+
+
+def replay_input(check, inp):
+    b = bytes.fromhex
+    if check == "vector_impl":
+        return chk_vector_impl(inp["vector"])
+    if check == "vector_spec":
+        return chk_vector_spec(inp["vector"])
+    if check == "sec_oracle":
+        return chk_sec_oracle(int(inp["k"]))
+    if check == "ref":
+        return chk_ref(inp["net"], inp["kt"], b(inp["seed"]), list(inp["path"]), inp["cut"])
+    if check == "commute":
+        return chk_commute(inp["net"], inp["kt"], b(inp["seed"]), inp["p1"], inp["p2"])
+    if check == "hardened_refused":
+        return chk_hardened_refused(inp["net"], inp["kt"], b(inp["seed"]), inp["p1"], inp["i"])
+    if check == "metadata":
+        return chk_metadata(b(inp["seed"]), inp["p1"], inp["i"], inp["h"], inp["pub"])
+    if check == "text_roundtrip":
+        return chk_text_roundtrip(inp["net"], inp["kt"], b(inp["seed"]), inp["path"], inp["ap"])
+    if check == "cache":
+        return chk_cache(b(inp["seed"]), inp["pub"], [tuple(c) for c in inp["calls"]])
+    if check == "spellings":
+        return chk_spellings(b(inp["seed"]), [tuple(t) for t in inp["toks"]], inp["pub"])
+    if check == "range":
+        return chk_range(b(inp["seed"]), [[tuple(x) for x in c] for c in inp["comps"]])
+    if check == "electrum":
+        return chk_electrum(int(inp["k"]), inp["path"])
+    if check == "blob_roundtrip":
+        return chk_blob_roundtrip(int(inp["x"]), inp["odd"], inp["depth"], inp["idx"])
+    return {"kind": "unknown-check"}
+
+
+def classify(pc, r):
+    if pc.name == "text_roundtrip" and r.get("kind") == "text-does-not-parse-back" and r.get("codec_mismatch") \
+            and r.get("network") in ("GRS", "GRSRT", "TGRS") and r.get("key_type") in (49, 84):
+        return "grs-bip49-bip84-checksum"
+    return None
+
+
+KNOWN_REPLAYS = {
+    "grs-bip49-bip84-checksum": lambda: chk_text_roundtrip("GRS", 49, bytes(range(16)), "", False),
+}
+
+
+def search(rng, tier, disagreements, known_ids):
+    """after a proof / correspondence break: look for an input on which the property itself fails"""
+    cands = []
+    for d in disagreements[:40]:
+        toks = d["case"].split(" ")
+        fn = toks[0]
+        try:
+            if fn in ("ops", "master", "spec_derive"):
+                seed = bytes.fromhex(toks[3][1:] if fn == "spec_derive" else toks[1][1:])
+                for sym, kt in (("BTC", 32), ("XTN", 32), ("BTC", 49)):
+                    for p1, p2 in (("", "0"), ("0H", "1/2"), ("1", "16777216/2147483647"), ("44'/0'", "0/5")):
+                        cands.append(PropCase("commute", {"net": sym, "kt": kt, "seed": seed.hex(), "p1": p1, "p2": p2},
+                                              (lambda sym=sym, kt=kt, seed=seed, p1=p1, p2=p2: chk_commute(sym, kt, seed, p1, p2))))
+                    for path, cut in (([0, 1], 2), ([2 ** 31, 1, 2 ** 24], 1), ([2 ** 31 - 1, 2 ** 32 - 1], 2), ([5, 6, 7], 0)):
+                        cands.append(PropCase("ref", {"net": sym, "kt": kt, "seed": seed.hex(), "path": path, "cut": cut},
+                                              (lambda sym=sym, kt=kt, seed=seed, path=path, cut=cut: chk_ref(sym, kt, seed, path, cut))))
+                for i in IDX:
+                    for h in (False, True):
+                        cands.append(PropCase("metadata", {"seed": seed.hex(), "p1": "", "i": i, "h": h, "pub": False},
+                                              (lambda seed=seed, i=i, h=h: chk_metadata(seed, "", i, h, False))))
+                cands.append(PropCase("cache", {"seed": seed.hex(), "pub": False, "calls": [[1, False, None], [1, False, True], [1, False, None], [1, True, False]]},
+                                      (lambda seed=seed: chk_cache(seed, False, [(1, False, None), (1, False, True), (1, False, None), (1, True, False)]))))
+                cands.append(PropCase("spellings", {"seed": seed.hex(), "toks": [[1, True], [2, False], [2 ** 24, True]], "pub": False},
+                                      (lambda seed=seed: chk_spellings(seed, [(1, True), (2, False), (2 ** 24, True)], False))))
+            elif fn in ("hwif_data", "hparse_data", "parse_hd_data", "serialize", "deserialize"):
+                for row in ROWS:
+                    for ap in (True, False):
+                        cands.append(PropCase("text_roundtrip", {"net": row[0], "kt": row[1], "seed": "00" * 16, "path": "0H/1", "ap": ap},
+                                              (lambda row=row, ap=ap: chk_text_roundtrip(row[0], row[1], b"\0" * 16, "0H/1", ap))))
+            elif fn in ("subpaths", "py_int", "py_dec", "path_token"):
+                cands.append(PropCase("range", {"seed": "00" * 16, "comps": [[[0, 2, "H"]], [[5, 5, ""], [9, 11, "p"]]]},
+                                      (lambda: chk_range(b"\0" * 16, [[(0, 2, "H")], [(5, 5, ""), (9, 11, "p")]]))))
+            elif fn.startswith("electrum"):
+                for path in ("0", "0/1", "7/0"):
+                    cands.append(PropCase("electrum", {"k": 12345, "path": path}, (lambda path=path: chk_electrum(12345, path))))
+        except Exception:
+            pass
+    cands += list(prop_cases(rng, "quick"))
+    for pc in cands:
+        try:
+            r = pc.thunk()
+        except Exception as e:
+            r = {"kind": "raises", "detail": "%s: %s" % (type(e).__name__, e)}
+        if r is not None and classify(pc, r) not in known_ids:
+            return {"check": pc.name, "input": pc.inp, "failure": r}
+    return None
